@@ -217,7 +217,11 @@ var lifecycleSubs = []string{"vcl_recv", "vcl_hash", "vcl_hit", "vcl_miss", "vcl
 var lifecycleActions = []string{"lookup", "pass", "error", "restart", "hash", "deliver", "fetch", "deliver_stale", "hit_for_pass", "upgrade", "bogus"}
 
 func genLifecycleStmt(t *rapid.T) string {
-	switch rapid.IntRange(0, 15).Draw(t, "lstmt") {
+	switch rapid.IntRange(0, 16).Draw(t, "lstmt") {
+	case 16:
+		return rapid.SampledFrom([]string{`set req.backend = req.backend;`, `set req.backend = dir_r;`, `set req.backend = dir_r; return(pass);`, `set req.backend = nope;`,
+			`set req.http.Y = fn_synth("a");`, `call sub_synth;`, `set req.backend = b; return(pass);`, `unset req.backend;`, `set req.http.Y = req.backend;`,
+			`set req.http.Y = beresp.backend.name;`, `set bereq.http.Y = "1";`, `set req.hash += "x";`, `synthetic.base64 "!!!";`, `set req.url = "";`, `set req.http.Host = "";`}).Draw(t, "backendish")
 	case 14:
 		// calls of subroutines with parameters: fitting, too few, too many, wrong type, unknown
 		return rapid.SampledFrom([]string{`call greet("x");`, `call greet();`, `call greet(10);`, `call greet("a", "b");`, `call add2(1, 2);`, `call add2(1);`,
@@ -343,7 +347,7 @@ func genC08(t *rapid.T) any {
 		}
 	case "include":
 		c.Modules = map[string]string{}
-		shape := rapid.SampledFrom([]string{"self", "mutual", "missing", "chain", "self-in-sub", "mutual-in-sub", "dup-sub", "dup-acl", "dup-table", "dup-backend", "too-many-backends"}).Draw(t, "shape")
+		shape := rapid.SampledFrom([]string{"self", "mutual", "missing", "chain", "self-in-sub", "mutual-in-sub", "dup-sub", "dup-acl", "dup-table", "dup-backend", "too-many-backends", "self-in-nested-block", "mutual-in-nested-block", "sibling-then-self", "self-with-extension"}).Draw(t, "shape")
 		c.Feat = []string{"include:" + shape}
 		switch shape {
 		case "self":
@@ -373,6 +377,21 @@ func genC08(t *rapid.T) any {
 				fmt.Fprintf(&bb, "backend many_%d { .host = \"127.0.0.1\"; .port = \"%d\"; }\n", i, i+1)
 			}
 			c.VCL = bb.String() + "sub vcl_recv { log \"x\"; }\n"
+		case "self-in-nested-block":
+			c.VCL = "sub vcl_recv {\n  include \"m1\";\n}\n"
+			c.Modules["m1"] = "log \"in\";\nif (req.http.X-A != \"never\") {\n  include \"m1\";\n}\n"
+		case "mutual-in-nested-block":
+			c.VCL = "sub vcl_recv {\n  include \"m1\";\n}\n"
+			c.Modules["m1"] = "if (req.http.X-A) {\n  log \"m1\";\n} else {\n  include \"m2\";\n}\n"
+			c.Modules["m2"] = "switch (req.http.X-A) {\ndefault:\n  include \"m1\";\n  break;\n}\n"
+		case "sibling-then-self":
+			c.VCL = "sub vcl_recv {\n  include \"m1\";\n}\n"
+			c.Modules["m1"] = "include \"m2\";\ninclude \"m1\";\n"
+			c.Modules["m2"] = "log \"m2\";\n"
+		case "self-with-extension":
+			c.VCL = "include \"m1.vcl\";\nsub vcl_recv { log \"x\"; }\n"
+			c.Modules["m1.vcl"] = "include \"m1.vcl\";\nsub helper_m1 { log \"m1\"; }\n"
+			c.Modules["m1"] = c.Modules["m1.vcl"]
 		case "self-in-sub":
 			c.VCL = "sub vcl_recv {\n  include \"m1\";\n}\n"
 			c.Modules["m1"] = "log \"in\";\ninclude \"m1\";\n"
@@ -430,6 +449,9 @@ sub fn_rec(INTEGER var.n) STRING { return fn_rec(var.n); }
 sub greet(STRING var.name) { log "hello " var.name; }
 sub add2(INTEGER var.a, INTEGER var.b) { set var.a += var.b; log var.a; }
 sub fn_two(STRING var.s, INTEGER var.n) STRING { return var.s var.n; }
+sub fn_synth(STRING var.s) STRING { synthetic "from function"; return var.s; }
+sub sub_synth { synthetic "from sub"; }
+director dir_r random { { .backend = b; .weight = 1; } }
 `
 
 type mapResolver struct {
